@@ -82,6 +82,22 @@ class op_budget:
         return False
 
 
+def bounded_parse(text, seconds=5.0):
+    """ExpressionParser().parse(text) under a CPU budget: the harness's own uses of
+    the parser (start expressions, re-parse oracles, printed forms) must not hang
+    when the code under test does.  Raises OpTimeoutError (an Exception) on a hang."""
+    from mathy_core.parser import ExpressionParser
+    try:
+        with op_budget(seconds):
+            return ExpressionParser().parse(text)
+    except OpTimeout:
+        raise OpTimeoutError(f"parse of {text[:40]!r} did not return within {seconds}s of CPU time")
+
+
+class OpTimeoutError(Exception):
+    pass
+
+
 # --------------------------------------------------------------------------
 # findings
 
